@@ -27,7 +27,9 @@ REQUIRED = ["totality.draw", "totality.render", "totality.rasterised", "types.ic
             "exactness.window-before-horizon", "exactness.window-after-horizon", "exactness.no-occupancy-at-begin",
             "lanelets.all", "lanelets.subset", "lanelets.empty-list", "propagation.root", "propagation.nested",
             "propagation.value-collision", "flag.draw_icon", "flag.show_label", "flag.draw_occupancies",
-            "flag.draw_signals", "flag.draw_continuous", "uncertain-state-drawn", "pp.draw_ids"]
+            "flag.draw_signals", "flag.draw_continuous", "uncertain-state-drawn", "pp.draw_ids",
+            "exactness.uncertain-initial-position", "totality.fan-lanelet-with-marked-short-bound",
+            "exactness.uncertain-initial-position.begin-after-initial-step"]
 ASSUMPTIONS = ["colours, z-order and label text are not judged", "exactness is judged for exact states only (an extra "
                "region patch for uncertain positions is legitimate)",
                "for set-based predictions the last step of the window may or may not be drawn (not fixed by the "
@@ -96,6 +98,19 @@ def run(ctx):
         except Exception as e:  # noqa
             ctx.violation("C19/harness/generator-raises-%s" % type(e).__name__, repr(e)[:200], {"i": i})
             continue
+        if i % 4 == 3:
+            # a fan-shaped lanelet (turn around a corner): its inner bound is much shorter than its centre line, here
+            # shorter than a line marking is wide
+            from commonroad.common.common_lanelet import LineMarking
+            from commonroad.scenario.lanelet import Lanelet
+            ang = np.linspace(0.0, math.pi / 2, 6)
+            r_in = [0.02, 0.05, 0.5][(i // 4) % 3]
+            cx, cy = 500.0 + 10.0 * i, -700.0
+            arc = lambda r_: np.column_stack([cx + r_ * np.cos(ang), cy + r_ * np.sin(ang)])  # noqa
+            mk_ = [LineMarking.DASHED, LineMarking.BROAD_DASHED, LineMarking.SOLID, LineMarking.BROAD_SOLID][(i // 12) % 4]
+            sc.add_objects(Lanelet(arc(r_in), arc((r_in + 4.0) / 2), arc(4.0), 7000 + i, line_marking_left_vertices=mk_,
+                                   line_marking_right_vertices=mk_))
+            ctx.feature("totality.fan-lanelet-with-marked-short-bound")
         H = horizon(sc)
         P = MPDrawParams()
         tb = rng.choice([0, 0, 1, 2, H, H + 3, max(0, H - 1)])
@@ -243,6 +258,10 @@ def run(ctx):
                     if t < te:
                         req += occd(o)
             return req, alw
+        if tb == t0 and not isinstance(ob.initial_state.position, np.ndarray):
+            # uncertain initial position: the enclosing occupancy is not judged here (C04 does), the region patch is admitted
+            occ0 = ob.occupancy_at_time(t0)
+            return [], (occd(occ0) if occ0 is not None else []) + flat(geom.describe(ob.initial_state.position))
         if tb == t0:
             req = flat(placement.expected_occupancy_desc(ob.obstacle_shape, ob.initial_state))
         elif tb > t0 and isinstance(ob.prediction, TrajectoryPrediction):
@@ -272,6 +291,13 @@ def run(ctx):
             if kind.startswith("dynamic"):
                 shape = gen_shape(G, rng)
                 init = gen_state(G, rng, "InitialState", t0, oid)
+                if kind != "dynamic-set" and ((i + oid) // 6) % 2 == 0:
+                    # the initial POSITION is a region: at the initial time step the renderer may add a patch for that region;
+                    # at any other begin step the region of the initial state is no occupancy the model reports
+                    from commonroad.geometry.shape import Circle, Rectangle
+                    c_ = np.array(init.position, dtype=float)
+                    init.position = Circle(0.75, c_) if oid % 2 else Rectangle(1.5, 0.5, c_, 0.0)
+                    ctx.feature("exactness.uncertain-initial-position")
                 pred = None
                 if kind == "dynamic-trajectory":
                     cls = rng.choice(["KSState", "STState", "PMState", "CustomState"])
@@ -362,6 +388,10 @@ def run(ctx):
         finally:
             plt.close(fig)
         ctx.feature("exactness.checked")
+        if any(isinstance(o, DynamicObstacle) and not isinstance(o.initial_state.position, np.ndarray) and
+               isinstance(o.prediction, TrajectoryPrediction) and
+               o.initial_state.time_step < tb <= o.prediction.final_time_step for o in obs):
+            ctx.feature("exactness.uncertain-initial-position.begin-after-initial-step")
         ctx.fingerprint(["exact", i, tb, te, sel])
         req_all, alw_all = [], []
         for ob in obs:
